@@ -67,7 +67,9 @@ class Violation(Exception):
 
 
 class Proc:
-    def __init__(self, idx, requests, arrive, late=False, name=None):
+    def __init__(self, idx, requests, arrive, late=False, name=None, after=None):
+        self.after = after  # {"event": "<kind>:<role>", "delay": s}: arrives that long after the
+        # first time anybody passes a seam of that class (targets the window behind a state change)
         self.idx = idx
         self.name = idx if name is None else name
         self.rfd = self.wfd = None
@@ -76,7 +78,7 @@ class Proc:
         self.late = late
         self.pid = None
         self.state = "new"  # new | idle | pending | done | killed
-        self.ready = arrive
+        self.ready = arrive if after is None else math.inf
         self.pending = None
         self.cur = None
         self.req_index = -1
@@ -499,6 +501,12 @@ class Sim:
             elif kind == "stat":
                 ans["mtime"] = self.mtime.get(self.norm(base), -3600.0)
 
+        cls = f"{kind}:{role or ''}"
+        for q in self.procs:
+            if q.after is not None and q.ready == math.inf and q.after["event"] == cls and q is not p:
+                q.ready = self.now + float(q.after.get("delay", 0.0))
+                self.bump("probe_arrival_triggered_by_event")
+
         # ---- let it happen --------------------------------------------------------------
         if kind in ("spawn-compile", "spawn-link") and acts_normally:
             ans["memo"] = self.memo_dir
@@ -539,8 +547,10 @@ class Sim:
         step the cache directory's mtime is what such a file system would show at this virtual
         time, so a new file can appear without the directory's mtime changing - which is what
         importlib's FileFinder keys its directory cache on."""
-        if self.scn.get("coarse_mtime"):
-            t = 1_700_000_000 + 2 * int(self.now // 2)
+        g = self.scn.get("coarse_mtime")
+        if g:
+            g = 2 if g is True else int(g)
+            t = 1_700_000_000 + g * int(self.now // g)
             try:
                 os.utime(self.cache, (t, t))
             except OSError:
@@ -725,6 +735,10 @@ class Sim:
                     runnable.append((p.ready, p))
                 elif p.state == "pending":
                     runnable.append((p.ready, p))
+            if runnable and all(r == math.inf for r, _ in runnable):
+                # the awaited event never happened: these processes arrive now
+                for _, p in runnable:
+                    p.ready = self.now
             if not runnable:
                 break
             tmin = min(r for r, _ in runnable)
@@ -801,7 +815,8 @@ class Sim:
             self.install_pre()
             self.coarse_dir_time()
             for i, ps in enumerate(scn["procs"]):
-                p = Proc(i, ps["requests"], ps.get("arrive", 0.0), name=ps.get("name", i))
+                p = Proc(i, ps["requests"], ps.get("arrive", 0.0), name=ps.get("name", i),
+                         after=ps.get("after"))
                 p.rng = core.rng_for(scn["seed"], f"dur{p.name}")
                 self.procs.append(p)
             self.run_phase(self.procs)
